@@ -391,5 +391,6 @@ def dialH : Handler := fun inp impl => do
     return ({ model := m, agree := agree, spec := spec, nontrivial := true, tag := tag ++ "/" ++ usedName tg } : Verdict).toJson
 
 def streams : List (String × Handler) :=
-  [("c19.fields", fieldsH), ("c19.timing", timingH), ("c19.binary", timingH), ("c19.load", loadH), ("c19.pool", poolH), ("c19.path", pathH), ("c19.dial", dialH)]
+  [("c19.fields", fieldsH), ("c19.timing", timingH), ("c19.binary", timingH), ("c19.load", loadH), ("c19.pool", poolH), ("c19.path", pathH), ("c19.dial", dialH),
+   ("c19.binpool", poolH), ("c19.bindial", dialH)]
 end Fabio.Driver.C19
